@@ -17,6 +17,12 @@
 (*   ClientGuarded = FALSE is the pinned commit: no synchronisation, the   *)
 (*   field is read twice.                                                  *)
 (*                                                                         *)
+(* Part C: start-up that never becomes ready (cluster.go NewCluster/ready/ *)
+(*   Shutdown).  The goroutine that runs ready() is registered in the      *)
+(*   Cluster's wait group; when ReadyTimeout fires it shuts the peer down. *)
+(*   ShutdownInline = TRUE is the pinned commit: ready() calls Shutdown()  *)
+(*   on its own goroutine, and Shutdown() ends with wg.Wait().             *)
+(*                                                                         *)
 (* The tracker's operation table is modelled in Tracker.tla.               *)
 (***************************************************************************)
 EXTENDS Integers, Sequences, FiniteSets, TLC
@@ -26,15 +32,18 @@ CONSTANTS MaxAlerts,          \* reset threshold (code: 1000)
           NReads,             \* Alerts() calls
           SizedOutsideLock,
           ClientGuarded,
-          Part                \* "alerts" | "informer"
+          ShutdownInline,
+          Part                \* "alerts" | "informer" | "lifecycle"
 
 VARIABLES alerts, lock, rd, wr, nread, nwritten, results, panicked,   \* part A
           client, gm, sh, gres,                                       \* part B
+          wg, rg, sd, doneCh,                                         \* part C
           act
 
 varsA == <<alerts, lock, rd, wr, nread, nwritten, results, panicked>>
 varsB == <<client, gm, sh, gres>>
-vars  == <<alerts, lock, rd, wr, nread, nwritten, results, panicked, client, gm, sh, gres, act>>
+varsC == <<wg, rg, sd, doneCh>>
+vars  == <<alerts, lock, rd, wr, nread, nwritten, results, panicked, client, gm, sh, gres, wg, rg, sd, doneCh, act>>
 
 Reverse(s) == [i \in 1..Len(s) |-> s[Len(s) + 1 - i]]
 Zeros(n)   == [i \in 1..n |-> 0]
@@ -45,6 +54,7 @@ Init ==
     /\ wr = [pc |-> "idle"]
     /\ nread = 0 /\ nwritten = 0 /\ results = <<>> /\ panicked = FALSE
     /\ client = "set" /\ gm = "idle" /\ sh = "idle" /\ gres = "none"
+    /\ wg = 1 /\ rg = "waiting" /\ sd = "idle" /\ doneCh = FALSE
     /\ act = [name |-> "Init"]
 
 (***************************************************************************)
@@ -93,7 +103,7 @@ WAppendUnlock ==
     /\ act' = [name |-> "WAppendUnlock", t |-> "writer"]
     /\ UNCHANGED <<rd, nread, results, panicked>>
 
-NextA == (RSize \/ RLock \/ RCopyUnlock \/ WLock \/ WAppendUnlock) /\ UNCHANGED varsB
+NextA == (RSize \/ RLock \/ RCopyUnlock \/ WLock \/ WAppendUnlock) /\ UNCHANGED varsB /\ UNCHANGED varsC
 
 \* --- properties (C18: no panic, no torn result) ---
 NoIndexPanic == ~panicked
@@ -129,11 +139,57 @@ SNil ==
     /\ act' = [name |-> "SNil", t |-> "shut"]
     /\ UNCHANGED <<gm, gres>>
 
-NextB == (GCheck \/ GUse \/ SNil) /\ UNCHANGED varsA
+NextB == (GCheck \/ GUse \/ SNil) /\ UNCHANGED varsA /\ UNCHANGED varsC
+
+(***************************************************************************)
+(* Part C                                                                  *)
+(* rg : the goroutine of NewCluster that runs ready() then run(); it is    *)
+(*      counted in wg (wg.Add(1) ... defer wg.Done()).                     *)
+(* sd : the thread executing Shutdown(): stops components, cancels, then   *)
+(*      wg.Wait(), then closes doneCh.                                     *)
+(***************************************************************************)
+\* ReadyTimeout fires
+CTimeout ==
+    /\ rg = "waiting"
+    /\ IF ShutdownInline
+         THEN rg' = "inshutdown" /\ sd' = "stopping"         \* Shutdown() runs on rg itself
+         ELSE rg' = "returning" /\ sd' = "stopping"          \* go Shutdown(); ready() returns
+    /\ act' = [name |-> "CTimeout", t |-> "ready"]
+    /\ UNCHANGED <<wg, doneCh>>
+
+\* the ready goroutine returns: deferred wg.Done()
+CReturn ==
+    /\ rg = "returning"
+    /\ rg' = "gone" /\ wg' = wg - 1
+    /\ act' = [name |-> "CReturn", t |-> "ready"]
+    /\ UNCHANGED <<sd, doneCh>>
+
+\* Shutdown: components stopped, context cancelled, now waiting for the goroutines
+CStopped ==
+    /\ sd = "stopping"
+    /\ sd' = "wgwait"
+    /\ act' = [name |-> "CStopped", t |-> "shutdown"]
+    /\ UNCHANGED <<wg, rg, doneCh>>
+
+\* wg.Wait() returns only when every registered goroutine has finished
+CWaitDone ==
+    /\ sd = "wgwait" /\ wg = 0
+    /\ sd' = "done" /\ doneCh' = TRUE
+    /\ rg' = IF rg = "inshutdown" THEN "returning" ELSE rg
+    /\ act' = [name |-> "CWaitDone", t |-> "shutdown"]
+    /\ UNCHANGED wg
+
+NextC == (CTimeout \/ CReturn \/ CStopped \/ CWaitDone) /\ UNCHANGED varsA /\ UNCHANGED varsB
+
+\* no goroutine waits for itself: Shutdown's wg.Wait() must not run on a goroutine counted in wg
+NoSelfWait == ~(sd = "wgwait" /\ rg = "inshutdown")
+\* the peer really stops
+LifeSpec == Init /\ [][NextC]_vars /\ WF_vars(NextC)
+EventuallyStopped == <>doneCh
 
 NoNilUse == gres # "nilpanic"
 
-Next == IF Part = "alerts" THEN NextA ELSE NextB
+Next == CASE Part = "alerts" -> NextA [] Part = "informer" -> NextB [] OTHER -> NextC
 Spec == Init /\ [][Next]_vars
 
 \* negated reachability goals (witness generation)
